@@ -153,6 +153,88 @@ theorem delivery (s : St) (t : Nat) (rest : List Nat) (tk : Task) (prog : List Y
     (cycle cfg s).trace = s.trace ++ [.step t tk.pc s.now (pendingRecv tk) tk.wake] :=
   resume_receives cfg s t rest tk prog hrun hrd htk hrf hprog
 
+
+/-- **finished_never_runs** (the multi-step half of `isolation`).  A task that is done or dead — it raised, its generator ended,
+or a return function raised — keeps its step counter and status for ever: no later iteration adds a step event for it. -/
+theorem finished_never_runs (s : St) (hs : s = reach cfg t0 tasks timers ss rs n) (t : Nat) (tk : Task)
+    (htk : s.tasks[t]? = some tk) (hd : tk.st ≠ .live) (m : Nat) :
+    (run cfg m s).trace.filterMap (stepIdx t) = s.trace.filterMap (stepIdx t) ∧
+    ∃ tk', (run cfg m s).tasks[t]? = some tk' ∧ tk'.st = tk.st ∧ tk'.pc = tk.pc := by
+  subst hs
+  have hi : Inv (reach cfg t0 tasks timers ss rs n) := Inv.run cfg n (Inv.init t0 tasks timers ss rs)
+  have hpo : PO cfg (reach cfg t0 tasks timers ss rs n) :=
+    PO.run cfg n (Inv.init t0 tasks timers ss rs) (PO.init cfg t0 tasks timers ss rs)
+  have hrun := no_overlap cfg t0 tasks timers ss rs n
+  have hc : ((reach cfg t0 tasks timers ss rs n).tasks.map ctl)[t]? = some (ctl tk) := by simp [htk]
+  have hstay := dead_stays cfg m hi hrun t (ctl tk) hc (by simpa [ctl] using hd)
+  have hpo' := PO.run cfg m hi hpo
+  refine ⟨?_, ?_⟩
+  · rw [hpo'.idx t, hpo.idx t]; simp only [pcC, hstay, hc]
+  · simp only [List.getElem?_map] at hstay
+    cases hk : (run cfg m (reach cfg t0 tasks timers ss rs n)).tasks[t]? with
+    | none => simp [hk] at hstay
+    | some tk' =>
+      simp [hk, ctl] at hstay
+      exact ⟨tk', rfl, hstay.2.2, hstay.2.1⟩
+
+/-- **fair**, full statement: from every reachable state every task in the ready deque gets to its head after finitely many
+cycles.  NOT proved, and false without a bound on sub-task call depth: `Again` call and return deliberately jump the queue
+(`first=True`), so a task that keeps calling sub-functions (or a recursive sub-function) starves the others. -/
+def fair_full (cfg : Cfg) (t0 : Nat) (tasks : List Nat) (timers : List TimerCfg) (ss rs : List (Option Nat)) : Prop :=
+  ∀ n t, t ∈ (reach cfg t0 tasks timers ss rs n).ready → ∃ m, (cycles cfg m (reach cfg t0 tasks timers ss rs n)).ready.head? = some t
+
+/-- **fair_partial** (program tables without sub-task calls, from any state without sub-tasks): the task at position `k` of
+the ready deque is at its head after exactly `k` cycles — every cycle moves it one place forward and nothing overtakes it; so a
+ready task runs within `ready.length` cycles.  (The hub is polled only when the deque is empty, so nothing enters in front.) -/
+theorem fair_partial (hna : NoAgain cfg) (k : Nat) (s : St) (t : Nat) (hns : NoSub s) (hrun : s.running = none)
+    (hk : s.ready[k]? = some t) : (cycles cfg k s).ready.head? = some t :=
+  (fair_cycles cfg hna k s t hns hrun hk).1
+
+/-- **timer.**  In every reachable state, for the task `t` that runs timer `j` (record `tm`):
+* its firings in the trace are numbered `0 … tm.fired-1`, once each, in order;
+* a one-shot timer has fired at most once; a self-stoppable timer whose callback returns `False` at firing `m` has fired at
+  most `m+1` times; in both cases the record is then `final` (the task sits on its trailing `yield False`).
+(That a firing is not early is `not_early` applied to the timer task's own step event: the callback runs in the same cycle as
+that resume; the link between the event's wake time and the record's `next` is checked by the oracle only.) -/
+theorem timer (s : St) (hs : s = reach cfg t0 tasks timers ss rs n) (t j : Nat) (tm : TimerSt)
+    (hk : kdL s.tasks t = some (.timer j)) (htm : s.timers[j]? = some tm) :
+    s.trace.filterMap (fireIdx t) = List.range tm.fired ∧
+    (tm.cfg.recurring = false → tm.fired ≤ 1 ∧ (tm.fired = 1 → tm.final = true)) ∧
+    (∀ m, tm.cfg.selfStop = true → tm.cfg.falseAt = some m → tm.fired ≤ m + 1 ∧ (tm.fired = m + 1 → tm.final = true)) ∧
+    (∃ c, timers[j]? = some c ∧ tm.cfg = c) := by
+  subst hs
+  have hfi : FI (reach cfg t0 tasks timers ss rs n) := FI.run cfg n (FI.init t0 tasks timers ss rs)
+  have hfr := TFr.run cfg n (initSt t0 tasks timers ss rs)
+  have hlt : j < (initSt t0 tasks timers ss rs).timers.length := by
+    rw [← hfr.1]; exact (List.getElem?_eq_some_iff.mp htm).1
+  obtain ⟨a, ha⟩ : ∃ a, (initSt t0 tasks timers ss rs).timers[j]? = some a := ⟨_, List.getElem?_eq_getElem hlt⟩
+  have hstar := hfr.2 j a tm ha htm
+  obtain ⟨hok, _, c, hc, hcfg⟩ := TOK.initSt t0 tasks timers ss rs j a ha
+  have hok' := hstar.ok hok
+  exact ⟨hfi.count t j tm hk htm, hok'.oneShot, hok'.selfStop, c, hc, by rw [hstar.cfg, hcfg]⟩
+
+/-- **timer, cancelled / stopped.**  Once a timer record is cancelled (or final) it never fires again: the firing counter and
+hence the timer task's firings in the trace stay what they are, for ever. -/
+theorem timer_stopped (s : St) (hs : s = reach cfg t0 tasks timers ss rs n) (t j : Nat) (tm : TimerSt)
+    (hk : kdL s.tasks t = some (.timer j)) (htm : s.timers[j]? = some tm) (hstop : tm.cancelled = true ∨ tm.final = true) (m : Nat) :
+    (run cfg m s).trace.filterMap (fireIdx t) = s.trace.filterMap (fireIdx t) := by
+  subst hs
+  have hfi : FI (reach cfg t0 tasks timers ss rs n) := FI.run cfg n (FI.init t0 tasks timers ss rs)
+  have hfi' := FI.run cfg m hfi
+  have hfr := TFr.run cfg m (reach cfg t0 tasks timers ss rs n)
+  have hlt : j < (run cfg m (reach cfg t0 tasks timers ss rs n)).timers.length := by
+    rw [hfr.1]; exact (List.getElem?_eq_some_iff.mp htm).1
+  obtain ⟨b, hb⟩ : ∃ b, (run cfg m (reach cfg t0 tasks timers ss rs n)).timers[j]? = some b := ⟨_, List.getElem?_eq_getElem hlt⟩
+  have hstar := hfr.2 j tm b htm hb
+  have hfired : b.fired = tm.fired := by
+    rcases hstop with h | h
+    · exact (hstar.cancelled h).2
+    · exact (hstar.final h).2
+  -- the task that runs timer `j` is still task `t`
+  have hk' : kdL (run cfg m (reach cfg t0 tasks timers ss rs n)).tasks t = some (.timer j) := by
+    exact kind_stable cfg m _ t _ hk
+  rw [hfi'.count t j b hk' hb, hfi.count t j tm hk htm, hfired]
+
 /-! ## non-vacuity: concrete runs that satisfy the hypotheses -/
 
 /-- two tasks and a recurring timer (the scenario of the design spike): sleeps, a pure-timeout select, three timer firings -/
@@ -179,6 +261,23 @@ example : let s := reach subCfg 8000 [0] [] [] [] 1
     (genStep s.timers.length [.num 3] 0 (.val .none)).final = true := by decide
 /-- … and two cycles later the caller has received the sub-task's value -/
 example : Ev.step 0 1 8000 (.val (.num 3)) none ∈ (reach subCfg 8000 [0] [] [] [] 3).trace := by decide
+
+/-- `fair_partial`: the demo program table has no sub-task calls, the initial state no sub-tasks, and task 1 is second in line -/
+example : NoAgain demoCfg ∧ NoSub (demo 0) ∧ (demo 0).running = none ∧ (demo 0).ready[1]? = some 1 ∧
+    (cycles demoCfg 1 (demo 0)).ready.head? = some 1 := by
+  refine ⟨by unfold NoAgain; decide, ?_, by decide, by decide, by decide⟩
+  intro k hk a p
+  have : (demo 0).tasks.map (·.kind) = [.top 0, .top 1, .timer 0] := by decide
+  rw [this] at hk
+  simp only [List.mem_cons, List.not_mem_nil, or_false] at hk
+  rcases hk with rfl | rfl | rfl <;> simp
+
+/-- `timer`: task 2 runs timer 0 of the demo, which is recurring, self-stopping at its third firing — and has fired 3 times -/
+example : kdL (demo 20).tasks 2 = some (.timer 0) ∧ ((demo 20).timers[0]?).map (·.fired) = some 3 ∧
+    ((demo 20).timers[0]?).map (·.final) = some true ∧ (demo 20).trace.filterMap (fireIdx 2) = [0, 1, 2] := by decide
+
+/-- `finished_never_runs`: after one iteration of the isolation scenario task 0 is dead (and task 1 still live) -/
+example : ((reach isoCfg 8000 [0, 1] [] [] [] 1).tasks.map (·.st)) = [.dead, .live] := by decide
 
 /-! ## defects of the current code, on concrete witnesses (the model mirrors the code as it stands) -/
 
